@@ -23,7 +23,9 @@ RULE = ('one run = one seeded allocation history on one storage kind '
         'over mapping/file layers with an adversarial id source that '
         'proposes ids adjacent to existing and issued ones, Connection '
         'savepoints, export/import): new_oid, store of issued ids, stores '
-        'and restores of arbitrary high/sparse ids, aborts, pack, '
+        'and restores of arbitrary high/sparse ids, aborts, ids allocated '
+        'inside two-phase commits that commit / abort / abort after the '
+        'vote, pack, '
         'close/reopen; or 2-4 allocator tasks calling new_oid/store '
         'concurrently under the seeded scheduler (lock/file-I/O and '
         'line-level pre-emption); oracle: every id returned differs from '
